@@ -31,6 +31,8 @@ pub struct Plan {
     /// (verb, exact path, n, fault): the n-th (from 0) occurrence of this operation suffers
     /// "crash" (halt before it), "crash_empty" (create the file empty, then halt) or an error kind
     pub rules: Vec<(String, String, usize, String)>,
+    /// do not wait for detached tasks once the operation has returned: the archive is looked at as it is at that moment
+    pub no_quiesce: bool,
 }
 
 pub fn kind_from_str(s: &str) -> ErrorKind {
